@@ -320,6 +320,74 @@ Definition forward_from (cfg : fcfg) (st : hstate) (segs : list bytes) : option 
   end.
 
 (* ===================================================================================== *)
+(* the other direction: data read from the upstream server                                  *)
+(* HttpProxyPlugin.read_from_descriptors (the branch: upstream readable, recv returned data) relays the bytes to
+   the client and feeds them to the BOOKKEEPING response parsers self.response / self.pipeline_response
+   (handle_pipeline_response).  These objects sit beside the forwarding state: *)
+Record cstate := {
+  c_fwd : hstate;                          (* request, plugin, upstream, pipeline_request, packets queued by the proxy *)
+  c_response : parser;                     (* HttpProxyPlugin.response *)
+  c_pipeline_response : option parser;     (* HttpProxyPlugin.pipeline_response *)
+  c_relayed : list bytes }.                (* upstream bytes queued for the client, in order *)
+
+Definition init_cstate : cstate :=
+  {| c_fwd := init_state; c_response := new_parser RESPONSE_PARSER; c_pipeline_response := None; c_relayed := [] |}.
+Definition with_fwd (cs : cstate) (st : hstate) : cstate :=
+  {| c_fwd := st; c_response := c_response cs; c_pipeline_response := c_pipeline_response cs; c_relayed := c_relayed cs |}.
+
+(* HttpProxyPlugin.handle_pipeline_response: returns the new pipeline_response *)
+Definition handle_pipeline_response (pr : option parser) (raw : bytes) : result (option parser) :=
+  let q := match pr with Some q => q | None => new_parser RESPONSE_PARSER end in
+  do q' <- parse q raw;
+  Ok (if is_complete q' then None else Some q').
+
+(* read_from_descriptors with data `raw` (no user plugins).  An exception of the bookkeeping parsers is caught
+   (fix ba95ac6): the bytes are relayed all the same; what the half-updated parser object then holds is not
+   modelled (kept as before the call). *)
+Definition read_from_upstream (cs : cstate) (raw : bytes) : cstate :=
+  match h_upstream (c_fwd cs) with
+  | Some up =>
+      if up_closed up then cs else
+      let '(resp, presp) :=
+        if negb (is_https_tunnel (h_request (c_fwd cs))) then
+          if is_complete (c_response cs) then
+            match handle_pipeline_response (c_pipeline_response cs) raw with
+            | Ok pr' => (c_response cs, pr')
+            | Err _ => (c_response cs, c_pipeline_response cs)
+            end
+          else
+            match parse (c_response cs) raw with
+            | Ok r' => (r', c_pipeline_response cs)
+            | Err _ => (c_response cs, c_pipeline_response cs)
+            end
+        else (set_buffer_size (c_response cs) (buffer (c_response cs)) (total_size (c_response cs) + len raw),
+              c_pipeline_response cs) in
+      {| c_fwd := c_fwd cs; c_response := resp; c_pipeline_response := presp; c_relayed := c_relayed cs ++ [raw] |}
+  | None => cs
+  end.
+
+(* what happens on a connection: data from the client (one handle_data call) or data from the upstream server *)
+Inductive event := EClient (data : bytes) | EUpstream (data : bytes).
+Inductive coutcome := CDone (teardown : bool) (cs : cstate) | CRaised (e : exn) (cs : cstate).
+
+Fixpoint run_events (cfg : fcfg) (connect_ok : bool) (cs : cstate) (evs : list event) : coutcome :=
+  match evs with
+  | [] => CDone false cs
+  | EClient x :: t =>
+      match handle_data cfg connect_ok (c_fwd cs) x with
+      | Done false st' => run_events cfg connect_ok (with_fwd cs st') t
+      | Done true st' => CDone true (with_fwd cs st')
+      | Raised e st' => CRaised e (with_fwd cs st')
+      end
+  | EUpstream x :: t => run_events cfg connect_ok (read_from_upstream cs x) t
+  end.
+
+Definition client_pieces (evs : list event) : list bytes :=
+  flat_map (fun e => match e with EClient x => [x] | EUpstream _ => [] end) evs.
+Definition forwarding_outcome (o : coutcome) : outcome :=
+  match o with CDone b cs => Done b (c_fwd cs) | CRaised e cs => Raised e (c_fwd cs) end.
+
+(* ===================================================================================== *)
 (* closed form of what _queue_request_for_upstream emits (theorem C02_forward_of_parsed)     *)
 
 (* header fields as (name as received, value), in dictionary order *)
